@@ -267,11 +267,6 @@ func (l *Lexer) SkipComment(c CommentStart) token.Token {
 }
 
 func (l *Lexer) skipWhitespace() {
-	if l.readPosition >= len(l.input) {
-		l.readChar()
-		return
-	}
-
 	for l.ch == ' ' || l.ch == '\t' || l.ch == '\n' || l.ch == '\r' {
 		l.readChar()
 	}
